@@ -4,7 +4,7 @@ every claimed check on each: all of them must stay silent (exit 0).
 usage: benign_matrix.py [--src DIR]   DIR defaults to /verif/benign ; layout DIR/<prop>/<name>.diff"""
 import json, os, subprocess, sys, tempfile, shutil
 VERIF = os.path.dirname(os.path.dirname(os.path.abspath(__file__)))
-BIN = os.path.join(VERIF, 'bin', 'hopverif')
+BIN = os.environ.get('HOPVERIF_BIN') or os.path.join(VERIF, 'bin', 'hopverif')
 src = os.path.join(VERIF, 'benign')
 only = []
 a = sys.argv[1:]
